@@ -86,6 +86,7 @@ pub fn ps(pubs: &[usize], subs: usize, order: &str, faults: bool, close: bool, h
         close,
         hostile,
         any_order: false,
+        owner: None,
     }
 }
 
@@ -252,6 +253,17 @@ fn any_order_families(what: &str, bound: usize, out: &mut Vec<Spec>) {
     }
 }
 
+/// many peers: anything keyed to a peer count or to the textual form of an id (10 -> "a"?) shows up
+fn many_peer_families(what: &str, out: &mut Vec<Spec>) {
+    if what == "rr" || what == "all" {
+        let n = 18usize;
+        out.push(Spec { scn: Scn::Rr(rr("many", vec![plain(1); n], vec![vec![]], "rf", (0..n as u64).collect(), false, false, false, false, "C02")), bound: 1 });
+    }
+    if what == "ps" || what == "all" {
+        out.push(Spec { scn: Scn::Ps(ps(&[1; 12], 12, "sf", false, false, false)), bound: 1 });
+    }
+}
+
 /// long bursts: anything keyed to a count (poll budgets, batch thresholds) below ~128 shows up
 fn burst_families(out: &mut Vec<Spec>) {
     out.push(Spec { scn: Scn::Ps(ps(&[130], 1, "sf", false, false, false)), bound: 1 });
@@ -278,6 +290,14 @@ fn one_sided(bound: usize, out: &mut Vec<Spec>) {
 }
 
 fn shutdown_families(bound: usize, out: &mut Vec<Spec>) {
+    // a subscriber / requestor breaks while the router is shutting down
+    for order in ["sf", "pf"] {
+        let mut p = ps(&[2], 2, order, true, true, false);
+        p.owner = Some("C16");
+        out.push(Spec { scn: Scn::Ps(p), bound });
+    }
+    out.push(Spec { scn: Scn::Rr(rr("two", vec![plain(1), plain(1)], vec![vec![]], "rf", vec![0, 1], true, true, false, false, "C16")), bound: bound.saturating_sub(1).max(2) });
+    out.push(Spec { scn: Scn::Rr(rr("replier-leaves", vec![plain(2)], vec![vec![]], "rf", vec![0], false, true, true, false, "C16")), bound });
     ps_set(&[(&[], 0), (&[2], 1), (&[1, 1], 2), (&[2], 0), (&[], 2), (&[0], 1), (&[0], 0)], false, true, false, bound, out);
     out.push(Spec { scn: Scn::Rr(rr("idle-requestor", vec![vec![]], vec![], "qf", vec![0], false, true, false, false, "C16")), bound });
     out.push(Spec { scn: Scn::Rr(rr("idle-requestor-replier", vec![vec![]], vec![vec![]], "rf", vec![0], false, true, false, false, "C16")), bound });
@@ -329,6 +349,10 @@ fn hostile_families(tier: &str, bound: usize, out: &mut Vec<Spec>) {
             out.push(Spec { scn: Scn::Rr(rr(&format!("req-kind{i}-noreplier"), vec![vec![ReqKind::NonMessage(i), ReqKind::Plain]], vec![vec![]], "qf", vec![0], false, false, false, true, "C11")), bound });
         }
     }
+    // replies whose routing tag is missing / unknown / not a number / whose headers are absent
+    for (n, mode) in [ReplyMode::DropTag, ReplyMode::UnknownTag, ReplyMode::BadTag, ReplyMode::NoHeaders].into_iter().enumerate() {
+        out.push(Spec { scn: Scn::Rr(rr(&format!("rep-tag{n}"), vec![plain(2), plain(1)], vec![vec![mode, ReplyMode::Echo, ReplyMode::Echo]], "rf", vec![0, 1], false, false, false, true, "C11")), bound });
+    }
     // request that fits the limit only before the routing tag is added
     out.push(Spec { scn: Scn::Rr(rr("at-limit", vec![vec![ReqKind::AtLimit, ReqKind::Plain]], vec![vec![]], "rf", vec![0], false, false, false, true, "C11")), bound: bound.min(2) });
     out.push(Spec { scn: Scn::Rr(rr("at-limit2", vec![vec![ReqKind::Plain, ReqKind::AtLimit], plain(1)], vec![vec![]], "rf", vec![0, 1], false, false, false, true, "C11")), bound: bound.min(1) });
@@ -357,6 +381,9 @@ fn families_base(id: &str, tier: &str) -> Vec<Spec> {
             ps_set(&[(&[2], 1), (&[2], 2), (&[2, 2], 1), (&[2, 2], 2), (&[1], 3), (&[0, 1], 1)], false, false, false, b, &mut out);
             burst_families(&mut out);
             any_order_families("ps", b.saturating_sub(1), &mut out);
+            many_peer_families("ps", &mut out);
+            // a publisher leaves while another stays and a third one joins
+            ps_set(&[(&[1, 2, 1], 1)], false, false, false, b, &mut out);
             out.retain(|s| matches!(s.scn, Scn::Ps(_)));
             if thorough {
                 ps_set(&[(&[3], 2), (&[2, 1], 3), (&[3, 3], 2)], false, false, false, 4, &mut out);
@@ -370,6 +397,7 @@ fn families_base(id: &str, tier: &str) -> Vec<Spec> {
             routing_families(tier, if thorough { 4 } else { 3 }, &mut out);
             burst_families(&mut out);
             any_order_families("rr", if thorough { 3 } else { 2 }, &mut out);
+            many_peer_families("rr", &mut out);
             out.retain(|s| matches!(s.scn, Scn::Rr(_)));
         }
         "C08" => fault_families(tier, if thorough { 5 } else { 4 }, &mut out),
@@ -379,6 +407,7 @@ fn families_base(id: &str, tier: &str) -> Vec<Spec> {
             routing_families(tier, b, &mut out);
             burst_families(&mut out);
             any_order_families("all", b.saturating_sub(1), &mut out);
+            many_peer_families("all", &mut out);
             one_sided(b, &mut out);
             shutdown_families(b.saturating_sub(1), &mut out);
             if thorough {
@@ -386,7 +415,7 @@ fn families_base(id: &str, tier: &str) -> Vec<Spec> {
             }
         }
         "C11" => hostile_families(tier, if thorough { 3 } else { 2 }, &mut out),
-        "C16" => shutdown_families(if thorough { 5 } else { 3 }, &mut out),
+        "C16" => shutdown_families(if thorough { 6 } else { 4 }, &mut out),
         _ => {}
     }
     out
